@@ -44,7 +44,7 @@ type (
 	EQuant struct {
 		Forall bool
 		Vars   []QVar
-		Trig   []Expr
+		Trig   [][]Expr
 		Body   Expr
 	}
 	ERaw struct{ Sort, S string } // raw SMT text: smt(Sort, "text")
@@ -440,14 +440,23 @@ func (p *parser) primary() (Expr, error) {
 			}
 			for p.isOp("{") {
 				p.next()
-				tr, err := p.iff()
-				if err != nil {
-					return nil, err
+				var group []Expr
+				for {
+					tr, err := p.iff()
+					if err != nil {
+						return nil, err
+					}
+					group = append(group, tr)
+					if p.isOp(",") {
+						p.next()
+						continue
+					}
+					break
 				}
 				if err := p.expect("}"); err != nil {
 					return nil, err
 				}
-				q.Trig = append(q.Trig, tr)
+				q.Trig = append(q.Trig, group)
 			}
 			body, err := p.iff()
 			if err != nil {
